@@ -771,6 +771,9 @@ pub fn check_c03_bp(case: &C03Bp) -> CaseResult {
     let mut pos = 0usize;
     let mut next_req = 0usize;
     let mut transmitted: Vec<usize> = Vec::new();
+    let mut abandoned_write = false;
+    // requests of which at least one byte went out, in wire order
+    let mut begun: Vec<usize> = Vec::new();
     while pos < wire.len() {
         let tx = if case.framing == Fr::Mbap && wire.len() >= pos + 2 {
             u16::from_be_bytes([wire[pos], wire[pos + 1]])
@@ -789,10 +792,36 @@ pub fn check_c03_bp(case: &C03Bp) -> CaseResult {
         match matched {
             Some((j, n)) => {
                 transmitted.push(j);
+                begun.push(j);
                 next_req = j + 1;
                 pos += n;
             }
             None => {
+                // a write the transport did not take within the request's own timeout is given up:
+                // the connection then ends with an I/O time-out, and what it carried last is the
+                // beginning of that request's frame and nothing after it
+                let abandoned = (next_req..case.requests.len()).find(|j| {
+                    let (unit, _, _, req) = &case.requests[*j];
+                    let f = expected_request_frame(case.framing, tx, *unit, &req.to_valid().unwrap());
+                    let timed_out = run
+                        .ledger
+                        .completions
+                        .iter()
+                        .any(|c| c.id == *j && matches!(&c.res, Res::Io(k) if k == "TimedOut"));
+                    timed_out && f.len() > wire.len() - pos && f.starts_with(&wire[pos..])
+                });
+                if let Some(j) = abandoned {
+                    let later_sent_nothing = run
+                        .ledger
+                        .completions
+                        .iter()
+                        .all(|c| c.id <= j || matches!(c.res, Res::NoConnection | Res::Shutdown));
+                    if later_sent_nothing {
+                        abandoned_write = true;
+                        begun.push(j);
+                        break;
+                    }
+                }
                 let (unit, _, _, req) = &case.requests[next_req.min(case.requests.len() - 1)];
                 let f = expected_request_frame(case.framing, tx, *unit, &req.to_valid().unwrap());
                 return Err(format!(
@@ -821,9 +850,12 @@ pub fn check_c03_bp(case: &C03Bp) -> CaseResult {
     if fragments > transmitted.len() {
         ok.label("frame_written_in_pieces");
     }
+    if abandoned_write {
+        ok.label("write_given_up_at_the_deadline");
+    }
     // the stall began inside a frame and outlasted that request's timeout
     let mut off = 0usize;
-    for j in &transmitted {
+    for j in &begun {
         let (unit, timeout, _, req) = &case.requests[*j];
         let n = expected_request_frame(case.framing, 0, *unit, &req.to_valid().unwrap()).len();
         let s = case.stall.0 as usize;
@@ -1014,7 +1046,7 @@ pub fn c12_unbounded_timeout(_ctx: &crate::runner::Ctx) -> crate::runner::Search
     use crate::runner::{hash_of, Failure, SearchReport};
     let mut rep = SearchReport::empty(
         "c12_unbounded_timeout",
-        "enumeration: {MBAP, RTU} x 3 submission styles x 8 request kinds: a request with the timeout Duration::MAX whose genuine reply arrives after 5 ms must succeed with the reply's values, and an ordinary request submitted afterwards must succeed as well (the channel is still there).",
+        "enumeration: {MBAP, RTU} x 3 submission styles x 8 request kinds x {fresh channel, after an answered ordinary request, after a timed-out ordinary request} x reply after {5 ms, 40 ms, 3 s}: a request with the timeout Duration::MAX must succeed with the values of its genuine reply whenever that arrives and whatever the channel did before, and an ordinary request submitted afterwards must succeed as well (the channel is still there).",
     );
     let kinds = [
         ReqSpec::Read { kind: Kind::ReadCoils, start: 3, count: 9 },
@@ -1029,42 +1061,54 @@ pub fn c12_unbounded_timeout(_ctx: &crate::runner::Ctx) -> crate::runner::Search
     for framing in [Fr::Mbap, Fr::Rtu] {
         for style in [Style::Future, Style::Callback, Style::Ffi] {
             for (k, req) in kinds.iter().enumerate() {
-                let case = serde_json::json!({"framing": format!("{:?}", framing), "style": format!("{:?}", style), "request": format!("{:?}", req.kind())});
-                let reply = |seed: u64| PeerAct::Frame {
-                    delay_ms: 5,
-                    tx: TxSel::Echo,
-                    pdu: PduSel::Genuine(seed),
-                    split: None,
-                };
-                let run = run_client(&CliCase {
-                    cfg: CliConfig {
-                        framing,
-                        decode: Decode::NOTHING,
-                        max_timeouts: Some(2),
-                        queue: 16,
-                        retry_ms: 100_000_000,
-                    },
-                    conns: vec![ConnPlan {
-                        peer: PeerPlan {
-                            per_request: vec![vec![reply(11 + k as u64)], vec![reply(99)]],
-                            default: vec![],
-                        },
-                        fail_write_at: None,
-                        write_stall: None,
-                        unsolicited: vec![],
-                    }],
-                    ops: vec![
-                        COp::Submit {
-                            id: 0,
+                // what the channel did before: nothing / an ordinary request (timeout 20 ms)
+                // answered after 5 ms / an ordinary request that timed out
+                for before in ["nothing", "answered request", "timed-out request"] {
+                    // the reply to the unbounded request: soon, after the earlier request's
+                    // deadline would have passed, much later
+                    for reply_ms in [5u32, 40, 3000] {
+                        let case = serde_json::json!({"framing": format!("{:?}", framing), "style": format!("{:?}", style), "request": format!("{:?}", req.kind()), "before": before, "reply_after_ms": reply_ms});
+                        let reply = |delay_ms: u32, seed: u64| PeerAct::Frame {
+                            delay_ms,
+                            tx: TxSel::Echo,
+                            pdu: PduSel::Genuine(seed),
+                            split: None,
+                        };
+                        let mut per_request = Vec::new();
+                        let mut ops = Vec::new();
+                        let mut next_id = 0usize;
+                        if before != "nothing" {
+                            per_request.push(if before == "answered request" { vec![reply(5, 7)] } else { vec![] });
+                            ops.push(COp::Submit {
+                                id: next_id,
+                                style: Style::Future,
+                                handle: 0,
+                                unit: 1,
+                                timeout_ms: 20,
+                                req: ReqSpec::Read {
+                                    kind: Kind::ReadInput,
+                                    start: 1,
+                                    count: 2,
+                                },
+                            });
+                            next_id += 1;
+                            // the unbounded request follows as soon as the first one is over
+                            ops.push(COp::Advance(if before == "answered request" { 6 } else { 21 }));
+                        }
+                        let unbounded = next_id;
+                        per_request.push(vec![reply(reply_ms, 11 + k as u64)]);
+                        per_request.push(vec![reply(5, 99)]);
+                        ops.push(COp::Submit {
+                            id: unbounded,
                             style,
                             handle: 0,
                             unit: 1,
                             timeout_ms: u32::MAX,
                             req: req.clone(),
-                        },
-                        COp::Advance(50),
-                        COp::Submit {
-                            id: 1,
+                        });
+                        ops.push(COp::Advance(reply_ms + 45));
+                        ops.push(COp::Submit {
+                            id: unbounded + 1,
                             style: Style::Future,
                             handle: 0,
                             unit: 1,
@@ -1074,30 +1118,49 @@ pub fn c12_unbounded_timeout(_ctx: &crate::runner::Ctx) -> crate::runner::Search
                                 start: 0,
                                 count: 1,
                             },
-                        },
-                        COp::Advance(500),
-                    ],
-                    select_seed: k as u64,
-                    pre_enable: true,
-                });
-                rep.stats.evaluations += 1;
-                let r0 = run.ledger.completions.iter().find(|c| c.id == 0).map(|c| c.res.clone());
-                let r1 = run.ledger.completions.iter().find(|c| c.id == 1).map(|c| c.res.clone());
-                if !matches!(r0, Some(Res::Ok(_))) || !matches!(r1, Some(Res::Ok(_))) {
-                    rep.failure = Some(Failure {
-                        message: format!(
-                            "{}: a request with timeout Duration::MAX answered after 5 ms completed with {:?}; the ordinary request after it with {:?} (task ended: {})",
-                            case, r0, r1, run.task_ended
-                        ),
-                        case,
-                        hang: false,
-                    });
-                    return rep;
-                }
-                rep.stats.nontrivial_total += 1;
-                rep.stats.distinct.insert(hash_of(&format!("{}", case)));
-                if rep.stats.samples.is_empty() {
-                    rep.stats.samples.push(case);
+                        });
+                        ops.push(COp::Advance(500));
+                        let run = run_client(&CliCase {
+                            cfg: CliConfig {
+                                framing,
+                                decode: Decode::NOTHING,
+                                max_timeouts: Some(2),
+                                queue: 16,
+                                retry_ms: 100_000_000,
+                            },
+                            conns: vec![ConnPlan {
+                                peer: PeerPlan {
+                                    per_request,
+                                    default: vec![],
+                                },
+                                fail_write_at: None,
+                                write_stall: None,
+                                unsolicited: vec![],
+                            }],
+                            ops,
+                            select_seed: k as u64,
+                            pre_enable: true,
+                        });
+                        rep.stats.evaluations += 1;
+                        let r0 = run.ledger.completions.iter().find(|c| c.id == unbounded).map(|c| c.res.clone());
+                        let r1 = run.ledger.completions.iter().find(|c| c.id == unbounded + 1).map(|c| c.res.clone());
+                        if !matches!(r0, Some(Res::Ok(_))) || !matches!(r1, Some(Res::Ok(_))) {
+                            rep.failure = Some(Failure {
+                                message: format!(
+                                    "{}: a request with timeout Duration::MAX answered after {} ms completed with {:?}; the ordinary request after it with {:?} (task ended: {})",
+                                    case, reply_ms, r0, r1, run.task_ended
+                                ),
+                                case,
+                                hang: false,
+                            });
+                            return rep;
+                        }
+                        rep.stats.nontrivial_total += 1;
+                        rep.stats.distinct.insert(hash_of(&format!("{}", case)));
+                        if rep.stats.samples.len() < 3 {
+                            rep.stats.samples.push(case);
+                        }
+                    }
                 }
             }
         }
